@@ -6,7 +6,7 @@
    A compressed block is the opaque letter TZ/TL of the input alphabet (CliBase.v): the round trip of
    zlib / LZO with paired persistent state is assumed there and exercised by the correspondence run. *)
 From LV Require Import Dec.CliBase Dec.CliFbProofs Dec.CliDec Dec.CliDecZ Dec.CliMsg Dec.CliInit Dec.RefEnc Dec.RefEncZ
-     Dec.CliRtBase Dec.CliRtSimple Dec.CliRtHextile Dec.CliRtZ Dec.CliRtTile Dec.CliRtZrle Dec.CliRtTrle Dec.CliRtTight Dec.CliCopyProofs Dec.CliRead Dec.CliReqProofs Dec.CliMsgProofs Dec.CliExamples Dec.CliMsgAll Dec.CliReadLink.
+     Dec.CliRtBase Dec.CliRtSimple Dec.CliRtHextile Dec.CliRtZ Dec.CliRtTile Dec.CliRtZrle Dec.CliRtTrle Dec.CliRtTight Dec.CliCopyProofs Dec.CliRead Dec.CliReqProofs Dec.CliMsgProofs Dec.CliExamples Dec.CliMsgAll Dec.CliReadLink Dec.CliZrleBound.
 Local Open Scope Z_scope.
 
 (* the partial, C-mirroring row writer coincides with the total spec-level blit inside the framebuffer *)
@@ -91,12 +91,41 @@ Theorem C07_roundtrip_zrle : forall ch s x y w h tgt ts fresh,
   0 <= x -> 0 <= y -> 0 <= w -> 0 <= h -> x + w <= c_w s -> y + h <= c_h s ->
   rows_wf w h tgt -> Forall (Forall (cp_ok (variant_of s))) tgt ->
   zs_ready c_zrlez c_zlibz s -> fresh = zrle_fresh s ->
-  let minsz := w * h * rbytes (variant_of s) * 2 + 4 in
+  let minsz := (if fixed s 12 then zrle_bound w h (rbytes (variant_of s)) else w * h * rbytes (variant_of s) * 2) + 4 in
   let cap := if c_rawsz s <? minsz then minsz else c_rawsz s in
   zlen (tiles_rows ch 0 (c_fmt s) false 64 (Z.to_nat (h / 64 + 1)) 0 w h tgt 0 []) <= cap - 4 ->
   dec_zrle x y w h s (ref_zrle ch (c_fmt s) fresh w h tgt ++ ts)
   = Ok tt (set_fb (zrle_mark (set_rawsz s cap)) (blit_spec (c_fb s) x y tgt)) ts.
 Proof. intros ch s x y w h tgt ts fresh Hs _. now apply roundtrip_zrle. Qed.
+
+(* Finding C07-F2 closed: the worst case of a ZRLE tile stream.  For EVERY choice oracle of the reference encoder the
+   tile stream of a w x h rectangle has at most [zrle_bound w h c] = (w/64+1)*(h/64+1)*(1+127*c) + w*h*(c+1) bytes
+   (c = bytes per CPIXEL; per tile a type byte and at most 127 palette CPIXELs, per pixel at most c+1 bytes - plain RLE
+   with runs of length 1 is the worst sub-encoding).  HandleZRLE before the fix sized raw_buffer as 2 x raw size and refused
+   e.g. a 1x1 rectangle sent with a palette; with fix 12 (notes/fix_C07_4.diff: raw_buffer sized by this bound) the round
+   trip holds for every rectangle and oracle WITHOUT the size hypothesis of [C07_roundtrip_zrle] *)
+Theorem C07_zrle_stream_bound : forall f v ch w h rows, cp_agree f v -> 0 <= w -> 0 <= h ->
+  zlen (tiles_rows ch 0 f false 64 (Z.to_nat (h / 64 + 1)) 0 w h rows 0 []) <= zrle_bound w h (rbytes v).
+Proof. intros f v ch w h rows Hag. now apply zrle_stream_bound. Qed.
+
+Theorem C07_roundtrip_zrle_sized : forall ch s x y w h tgt ts fresh,
+  st_wf s -> f_be (c_fmt s) = false -> cp_agree (c_fmt s) (variant_of s) -> fixed s 8 = true -> fixed s 12 = true ->
+  0 <= x -> 0 <= y -> 0 <= w -> 0 <= h -> x + w <= c_w s -> y + h <= c_h s ->
+  rows_wf w h tgt -> Forall (Forall (cp_ok (variant_of s))) tgt ->
+  zs_ready c_zrlez c_zlibz s -> fresh = zrle_fresh s ->
+  let minsz := zrle_bound w h (rbytes (variant_of s)) + 4 in
+  let cap := if c_rawsz s <? minsz then minsz else c_rawsz s in
+  dec_zrle x y w h s (ref_zrle ch (c_fmt s) fresh w h tgt ++ ts)
+  = Ok tt (set_fb (zrle_mark (set_rawsz s cap)) (blit_spec (c_fb s) x y tgt)) ts.
+Proof. intros ch s x y w h tgt ts fresh Hs _. now apply roundtrip_zrle_sized. Qed.
+
+(* the old sizing really refused a valid rectangle: 1x1, 24-bit CPIXEL, palette-RLE tile with a padded palette (8 bytes > 2*3) *)
+Example C07_zrle_oversize_refused :
+  let f888 := mkfmt 32 24 false 255 255 255 16 8 0 in
+  dec_zrle 0 0 1 1 (set_fix (init_state f888 255 4 4) 4095) [TZ 5 true true [130; 1; 2; 3; 4; 5; 6; 0]] = Fail /\
+  (exists s', dec_zrle 0 0 1 1 (init_state f888 255 4 4) [TZ 5 true true [130; 1; 2; 3; 4; 5; 6; 0]] = Ok tt s' []) /\
+  fixed (init_state f888 255 4 4) 12 = true.
+Proof. cbv zeta. split; [vm_compute; reflexivity|]. split; [eexists; vm_compute; reflexivity|reflexivity]. Qed.
 
 (* The reference server keeps ONE deflate stream PER ENCODING (RFC 6143 7.7.6 for ZRLE; this repository's server:
    cl->compStream for Zlib, cl->zrleData for ZRLE): [ref_zrle] emits blocks of stream 5, [ref_zlib] of stream 0.
@@ -354,7 +383,7 @@ Theorem C07_update_rect_zrle : forall ch s x y w h tgt fresh,
   0 <= x < 65536 -> 0 <= y < 65536 -> 0 <= w < 65536 -> 0 <= h < 65536 -> x + w <= c_w s -> y + h <= c_h s ->
   rows_wf w h tgt -> Forall (Forall (cp_ok (variant_of s))) tgt ->
   zs_ready c_zrlez c_zlibz s -> fresh = zrle_fresh s ->
-  let minsz := w * h * rbytes (variant_of s) * 2 + 4 in
+  let minsz := (if fixed s 12 then zrle_bound w h (rbytes (variant_of s)) else w * h * rbytes (variant_of s) * 2) + 4 in
   let cap := if c_rawsz s <? minsz then minsz else c_rawsz s in
   zlen (tiles_rows ch 0 (c_fmt s) false 64 (Z.to_nat (h / 64 + 1)) 0 w h tgt 0 []) <= cap - 4 ->
   rect_steps s (toks (rect_header x y w h cE_ZRLE) ++ ref_zrle ch (c_fmt s) fresh w h tgt)
